@@ -63,11 +63,11 @@ fn ordered_as_ascii(a: &AigOwned) -> AigOwned {
     let mut code = 2 * (i + 1);
     for l in &mut b.latches {
         l.0 = Some(code);
-        code += 2;
+        code = code.wrapping_add(2);
     }
     for g in &mut b.ands {
         g.0 = Some(code);
-        code += 2;
+        code = code.wrapping_add(2);
     }
     b
 }
@@ -118,13 +118,13 @@ fn features_aiger(d: &AigDoc, obs: &mut Obs) -> bool {
     any |= f(!a.fairness.is_empty(), "aiger-fairness-section", obs);
     any |= f(a.justice.iter().any(|j| j.is_empty()), "aiger-empty-justice-property", obs);
     if d.binary {
-        let mut code = 2 * (a.input_count + a.latches.len() as u64 + 1);
+        let mut code = (a.input_count + a.latches.len() as u64 + 1).wrapping_mul(2);
         for g in &a.ands {
             let hi = g.1.max(g.2);
-            let d0 = code - hi;
+            let d0 = code.wrapping_sub(hi);
             any |= f(d0 >= 1 << 14, "aiger-delta-3+-bytes", obs);
             any |= f(d0 >= 1 << 56, "aiger-delta-9+-bytes", obs);
-            code += 2;
+            code = code.wrapping_add(2);
         }
     }
     any && (a.latches.len() + a.outputs.len() + a.ands.len() + a.symbols.len() + a.bad.len() > 0)
@@ -212,7 +212,19 @@ pub fn check_forward(c: &Forward, obs: &mut Obs) -> CheckResult {
             }
             let writer = c.writer.unwrap_or(if d.binary { AigWriter::BinaryOrdered } else { AigWriter::AsciiAig });
             obs.class(format!("writer/{writer:?}"));
-            let bytes = write_aiger_with_crate(&d.aig, spec.lit, writer);
+            let bytes = match std::panic::catch_unwind(std::panic::AssertUnwindSafe(|| {
+                write_aiger_with_crate(&d.aig, spec.lit, writer)
+            })) {
+                Ok(b) => b,
+                Err(p) => fail!(
+                    format!("C03:{}:writer-panic", spec.parser.name()),
+                    "{}: the crate's {:?} writer panicked on a value of its domain: {}; value {:?}",
+                    spec.describe(),
+                    writer,
+                    crate::engine::panic_message(&p),
+                    d.aig
+                ),
+            };
             let (pspec, want_doc) = match writer {
                 AigWriter::AsciiAig => (spec, d.clone()),
                 AigWriter::AsciiOrdered => (
@@ -408,14 +420,17 @@ fn huge_binary_strategy() -> impl Strategy<Value = Forward> {
             let max_m = (aiger_max_code(lit) - 1) / 2;
             let l = 1u64;
             let a = gates.len() as u64;
+            // one case in four sits exactly at the type's limit: I + L + A = (MAX_CODE - 1) / 2
+            let inputs = if inputs % 4 == 1 { max_m - l - a } else { inputs };
             let m = (inputs + l + a).min(max_m);
             let mut ands = vec![];
-            let mut code = 2 * (inputs + l + 1);
+            // (with no gates the first gate code may not even be representable)
+            let mut code = (inputs + l + 1).wrapping_mul(2);
             for (x, y) in gates {
                 let i0 = x % code;
                 let i1 = y % (i0 + 1);
                 ands.push((None, i0, i1));
-                code += 2;
+                code = code.wrapping_add(2);
             }
             let aig = AigOwned {
                 max_var_index: m,
